@@ -371,6 +371,8 @@ class World:
         self.evals = 0
         self.nontrivial = set()
         self.op_steps = {}
+        self.index_drifted = False
+        self.control_plan = {}  # op index -> what the faulted op amounted to
         self.had_partial_remove = False
         self.had_reset_then_insert = False
         self._was_reset = False
@@ -777,7 +779,31 @@ class World:
                 tf.Point(**{slot: val})
             return None
         if k == "reopen" and not self.csv:
-            return None  # memory storage has a single incarnation
+            # memory storage has a single incarnation; as the twin of a CSV
+            # world it mimics what a reopen does to the index: a new object
+            # over the same points, index invalid until rebuilt
+            if not self.opts.get("emulate_reopen"):
+                return None
+            import copy
+            c = op.get("cfg") or {}
+            self.auto_index = c.get("auto_index", self.auto_index)
+            pts = [copy.deepcopy(p) for p in db.storage]
+            if c.get("access_mode") in ("w", "w+"):
+                pts = []
+            if c.get("tz") and c["tz"] != self.tz:
+                self.tz = c["tz"]
+                set_tz(self.tz)
+            ndb = tf.TinyFlux(storage=tf.storages.MemoryStorage,
+                              auto_index=self.auto_index)
+            if pts:
+                ndb.storage.append(pts)
+                ndb.index.invalidate()
+                if self.auto_index:
+                    ndb.reindex()
+            self.db = ndb
+            self.handles = {}
+            self.suspended = None
+            return None
         if k == "reopen":
             how = op.get("how", "close")
             if how == "close":
@@ -971,6 +997,9 @@ class World:
             c = op.get("cfg") or {}
             if c.get("access_mode", self.mode) in ("w", "w+") and self.csv:
                 mdl.points = []
+            if not self.csv and self.opts.get("emulate_reopen") and \
+                    c.get("access_mode") in ("w", "w+"):
+                mdl.points = []
             return ("ret", None)
         return ("any",)
 
@@ -1102,6 +1131,7 @@ class World:
                 self.fault_sites.add((k, cf["which"], cf["kind"], cf["n"]))
                 # the collaborator failed: the call must raise and the
                 # contents stay as they were
+                self.control_plan[i] = ("drop",)
                 self.model = pre_model.copy()
                 exp = ("raises", (CollabError,) if cf["kind"] == "raise"
                        else (CollabInterrupt,) if cf["kind"] == "interrupt"
@@ -1115,6 +1145,24 @@ class World:
             "cfired": cfired, "pre_pending": pre_pending,
             "pre_mode": pre_mode, "clock": clock_before,
         }
+        poison = op.get("poison")
+        if poison and poison.get("kind") == "raise" and k == \
+                "insert_multiple" and exp[0] == "raises":
+            # a raising iterable is an injected collaborator failure too
+            self.control_plan[i] = ("prefix", "x", min(poison["at"],
+                                                       len(op["pts"])))
+            self.faulted = True
+        if self.prop == "C11" and exp[0] == "raises" and \
+                i not in self.control_plan and out.kind == "exc":
+            # every call that is expected to raise is an injected failure
+            # for C11: the control replays what it amounted to
+            if k == "insert_multiple":
+                self.control_plan[i] = (
+                    "prefix", "x",
+                    len(self.model.points) - len(pre_model.points))
+            else:
+                self.control_plan[i] = ("drop",)
+            self.faulted = True
         if fired or cfired:
             self.faulted = True
         try:
@@ -1371,8 +1419,8 @@ class World:
             timeq = queryast.has_attr(op["q"], "time")
             if timeq:
                 owners.add("C08")
-            if P not in owners and not (P in ("C11", "C12", "C13")
-                                        and self.faulted):
+            if P not in owners and P != "__control__" and not (
+                    P in ("C11", "C12", "C13") and self.faulted):
                 return
             self.evals += 1
             msg = self.cmp_read(k, op, got, want)
@@ -1411,8 +1459,8 @@ class World:
                 owners.add("C08")
             if k == "all" and op.get("sorted", True):
                 owners.add("C08")
-            if P not in owners and not (P in ("C11", "C12", "C13")
-                                        and self.faulted):
+            if P not in owners and P != "__control__" and not (
+                    P in ("C11", "C12", "C13") and self.faulted):
                 return
             self.evals += 1
             msg = self.cmp_getter(k, op, got, want)
@@ -1660,7 +1708,9 @@ class World:
                     owners = owners | {"C10"}
         if after_raise:
             owners = owners | {"C11"}
-            if ctx["exp"][0] == "raises" and ValueError in ctx["exp"][1]:
+            if ctx["exp"][0] == "raises" and ValueError in ctx["exp"][1] \
+                    and any(well_typed(p) for p in actual):
+                # an invalid value actually made it into the database
                 owners = owners | {"C14"}
         self.confirm_file_property(
             ctx, owners, "state-vs-model:" + d[0],
@@ -1735,7 +1785,10 @@ class World:
         must_not_touch = False
         if k in READS or k == "bad_point":
             must_not_touch = True
-        elif k in REWRITES and unchanged_model:
+        elif k in REWRITES and unchanged_model and (
+                out.kind == "exc" or out.value in (0, None)):
+            # matched / changed nothing, and says so (a call that claims to
+            # have changed something is judged by C02/C03/C14, not here)
             must_not_touch = True
             if ctx["exp"][0] == "ret":
                 self.probe("noop-write")
@@ -1810,7 +1863,7 @@ class World:
     def check_invariants(self, ctx):
         i, op, k = ctx["i"], ctx["op"], ctx["k"]
         P = self.prop
-        if P in ("C14", "C11") and "actual" in ctx:
+        if P in ("C14", "C11", "__control__") and "actual" in ctx:
             for n, p in enumerate(ctx["actual"]):
                 w = well_typed(p)
                 if w:
@@ -1819,7 +1872,8 @@ class World:
                               % (k, n, w), i)
             if P == "C14":
                 self.evals += 1
-        if P in ("C06", "C11", "C13") and self.db is not None:
+        if P in ("C06", "C11", "C13", "__control__") and \
+                self.db is not None:
             self.check_index(ctx)
 
     def check_index(self, ctx):
@@ -1830,7 +1884,9 @@ class World:
         P = self.prop
         owners = {"C06"}
         if P in ("C11", "C13") and (ctx["out"].kind == "exc" or
-                                    self.admissible is not None):
+                                    self.admissible is not None) and \
+                not self.index_drifted:
+            # the index agreed with storage before this failing call
             owners = owners | {P}
         if k in INSERTS and out.kind == "ret" and self.auto_index and \
                 ctx["pre_valid"]:
@@ -1868,6 +1924,10 @@ class World:
         self.evals += 1
         msg = self.index_equiv(idx, ctx["actual"])
         if msg:
+            drifted_before = self.index_drifted
+            self.index_drifted = True
+            if drifted_before and P != "C06":
+                return
             self.fail(owners, "index-vs-rebuild",
                       "after %s %s the valid index differs from a rebuild: %s"
                       % (k, _brief(op), msg), i)
